@@ -99,6 +99,8 @@ type config struct {
 	// HonestInOrder restricts the members outside Faulty to deliver their (single, correct) message in
 	// ascending id order; the candidates' messages still interleave with them in every possible way.
 	HonestInOrder bool `json:"honest_in_id_order,omitempty"`
+	// AltDecided: the committee decides a valid value other than this operator's own input
+	AltDecided bool `json:"decided_differs_from_own_input,omitempty"`
 }
 
 func (c config) f() int { return (c.N - 1) / 3 }
@@ -115,7 +117,11 @@ func (c config) String() string {
 	if c.HonestInOrder {
 		fs += ", other members deliver in id order"
 	}
-	return fmt.Sprintf("role=%s n=%d f=%d prefix=%s faulty-candidates=%s bad-kinds=[%s]", c.Role, c.N, c.f(), c.Mode, fs, strings.Join(ks, ","))
+	alt := ""
+	if c.AltDecided {
+		alt = " decided-value-differs-from-own-input"
+	}
+	return fmt.Sprintf("role=%s n=%d f=%d prefix=%s%s faulty-candidates=%s bad-kinds=[%s]", c.Role, c.N, c.f(), c.Mode, alt, fs, strings.Join(ks, ","))
 }
 
 // ---- explorer ----
@@ -133,6 +139,7 @@ type explorer struct {
 
 func newExplorer(r *ev.Run, cfg config) *explorer {
 	t := run5.New(cfg.Role, cfg.N, cfg.Mode)
+	t.AltDecided = cfg.AltDecided
 	if err := t.Prefix(); err != nil {
 		ev.Fatal("prefix of %s failed: %v", cfg, err)
 	}
@@ -377,6 +384,7 @@ type result struct {
 // fresh builds a runner, runs the prefix and replays path.
 func (x *explorer) fresh(path []event, stores *ibftstorage.QBFTStores) *run5.Env {
 	env := run5.NewWith(x.cfg.Role, x.cfg.N, x.cfg.Mode, stores)
+	env.AltDecided = x.cfg.AltDecided
 	if err := env.Prefix(); err != nil {
 		ev.Fatal("prefix of %s failed: %v", x.cfg, err)
 	}
@@ -621,6 +629,8 @@ func main() {
 		cfgs = []config{
 			{Role: run5.Attester, N: 4, Mode: run5.ByMessages, Kinds: base},
 			{Role: run5.Attester, N: 4, Mode: run5.ByDecided, Kinds: base},
+			// the committee decides attestation data that differs from this operator's own input
+			{Role: run5.Attester, N: 4, Mode: run5.ByMessages, Kinds: reduced, AltDecided: true},
 			{Role: run5.Proposer, N: 4, Mode: run5.ByMessages, Kinds: base},
 			{Role: run5.VoluntaryExit, N: 4, Mode: run5.ByMessages, Kinds: base},
 			{Role: run5.Registration, N: 4, Mode: run5.ByMessages, Kinds: base},
